@@ -39,6 +39,7 @@ class CNum (α : Type) extends Add α, Sub α, Mul α, Div α, Neg α, Mod α, L
 
 attribute [instance] CNum.decLt CNum.decLe
 
+instance instInhabitedOfCNum {α : Type} [CNum α] : Inhabited α := ⟨CNum.nan⟩
 instance instOfNatOfCNum {α : Type} [CNum α] {n : Nat} : OfNat α n := ⟨CNum.ofNat n⟩
 instance instOfScientificOfCNum {α : Type} [CNum α] : OfScientific α := ⟨CNum.ofScientific⟩
 
